@@ -63,6 +63,48 @@ tapkee::TapkeeOutput embed_uniform(std::vector<int>& indices, VCallbacks& cb, ta
     return held;
 }
 
+// The library's own callback types (eigen_kernel_callback, eigen_distance_callback, eigen_features_callback) over a feature
+// matrix that holds more columns than are embedded: the samples are a shuffled subset of its columns, the other columns hold
+// unrelated vectors far away. Anything computed "over the matrix" instead of "over the range" (means, sizes) shows.
+Outcome guarded_embed_eigen_subrange(const Eigen::MatrixXd& X, unsigned long seed, tapkee::ParametersSet params)
+{
+    Outcome o;
+    const int N = (int)X.cols(), D = (int)X.rows(), extra = N / 2 + 3;
+    uint64_t state = seed * 6364136223846793005ull + 1442695040888963407ull;
+    auto next = [&]() {
+        state ^= state << 13;
+        state ^= state >> 7;
+        state ^= state << 17;
+        return state;
+    };
+    std::vector<tapkee::IndexType> where(N + extra);
+    for (int i = 0; i < N + extra; ++i)
+        where[i] = i;
+    for (int i = N + extra - 1; i > 0; --i)
+        std::swap(where[i], where[(int)(next() % (uint64_t)(i + 1))]);
+    tapkee::DenseMatrix big(D, N + extra);
+    double scale = std::max(1.0, X.cwiseAbs().maxCoeff());
+    for (int j = 0; j < N + extra; ++j)
+        for (int i = 0; i < D; ++i)
+            big(i, where[j]) = j < N ? X(i, j) : scale * (50.0 + (double)(next() % 1000) / 10.0);
+    std::vector<tapkee::IndexType> labels(where.begin(), where.begin() + N);
+    tapkee::eigen_kernel_callback kcb(big);
+    tapkee::eigen_distance_callback dcb(big);
+    tapkee::eigen_features_callback fcb(big);
+    try
+    {
+        tapkee::TapkeeOutput& held = carried_output();
+        held = tapkee::embed(labels.begin(), labels.end(), kcb, dcb, fcb, params);
+        o.out = held;
+        o.what = "ok";
+    }
+    catch (...)
+    {
+        classify_current_exception(o);
+    }
+    return o;
+}
+
 void classify_current_exception(Outcome& o)
 {
     o.documented = true;
